@@ -498,7 +498,7 @@ func checkC11(p *Prog, r *Result, tier string) {
 						switch {
 						case cl.Has(EErrUnique) && cl.Has(EIdxWLive) && !cl.Has(EFsRObj):
 							accHdr = pos(lp)
-						case cl.Has(EIdxWLive) && !cl.Has(EErrUnique) && !cl.Has(EFsRObj) && !cl.Has(ETblR):
+						case cl.Has(EIdxWLive) && !cl.Has(EErrUnique) && !cl.Has(EFsRObj) && !cl.Has(ETblR) && p.IsIndexDelete(g):
 							delHdr = pos(lp)
 						}
 					}
@@ -719,32 +719,13 @@ func checkC17(p *Prog, r *Result, tier string) {
 			r.Report("C17.R4", name, "symmetric comparison", Undecided, "function not found", "", nil, false)
 			continue
 		}
-		ranged := map[ssa.Value]bool{}
-		looked := map[ssa.Value]bool{}
-		cmps := map[*ssa.Function]int{}
-		for _, b := range f.Blocks {
-			for _, in := range b.Instrs {
-				switch v := in.(type) {
-				case *ssa.Range:
-					ranged[v.X] = true
-				case *ssa.Lookup:
-					looked[v.X] = true
-				case *ssa.Call:
-					if g := v.Call.StaticCallee(); g != nil && g.Signature.Recv() != nil && g.Signature.Results().Len() == 1 {
-						if bt, ok := g.Signature.Results().At(0).Type().Underlying().(*types.Basic); ok && bt.Info()&types.IsBoolean != 0 {
-							cmps[g]++
-						}
-					}
-				}
-			}
-		}
-		both := len(f.Params) >= 2 && ranged[f.Params[0]] && ranged[f.Params[1]] && looked[f.Params[0]] && looked[f.Params[1]]
-		sameCmp := len(cmps) == 1
-		for _, n := range cmps {
-			if n < 2 {
-				sameCmp = false
-			}
-		}
+		// direction summary: the pairs (i, j) of the function's own parameters (receiver first) such that the
+		// function, or a helper it hands them to, ranges over parameter i and looks each key up in parameter j
+		// comparing the two descriptors with a comparator
+		dirs := directionSummary(p, f, 0, map[*ssa.Function]bool{})
+		both := dirs[[2]int{0, 1}] != nil && dirs[[2]int{1, 0}] != nil
+		// the comparator of the two directions is the same function (or the same function-typed value)
+		sameCmp := both && dirs[[2]int{0, 1}].String() == dirs[[2]int{1, 0}].String()
 		cl := c.Of(f)
 		if both && sameCmp && cl.Has(EErrFieldDesc) && cl.Has(EErrUnkField) {
 			r.Report("C17.R4", FuncName(f), "symmetric comparison", Discharged, "", p.Pos(f.Pos()), nil, true)
@@ -784,3 +765,103 @@ func checkC17(p *Prog, r *Result, tier string) {
 func init() { register("C17", checkC17) }
 
 var _ = strings.Join
+
+// cmpID identifies the comparator used by a one-direction check.
+type cmpID struct{ s string }
+
+func (c *cmpID) String() string {
+	if c == nil {
+		return ""
+	}
+	return c.s
+}
+
+// directionSummary: see C17.R4. A one-direction check in f is a range over (a value that is) parameter i whose
+// loop looks the key up in parameter j; the comparator is the boolean call (method, or call through a function-typed
+// parameter) made in the same function. Calls to sod helpers that are handed parameters of f contribute their own
+// summary, mapped through the arguments (so m.h(target) and target.h(m) give both directions).
+func directionSummary(p *Prog, f *ssa.Function, depth int, seen map[*ssa.Function]bool) map[[2]int]*cmpID {
+	out := map[[2]int]*cmpID{}
+	if depth > 3 || seen[f] || f.Blocks == nil {
+		return out
+	}
+	seen[f] = true
+	defer delete(seen, f)
+	paramIdx := func(v ssa.Value) int {
+		for i, prm := range f.Params {
+			if ssa.Value(prm) == v {
+				return i
+			}
+		}
+		return -1
+	}
+	var ranged, looked []int
+	var cmp *cmpID
+	for _, b := range f.Blocks {
+		for _, in := range b.Instrs {
+			switch v := in.(type) {
+			case *ssa.Range:
+				if i := paramIdx(v.X); i >= 0 {
+					ranged = append(ranged, i)
+				}
+			case *ssa.Lookup:
+				if i := paramIdx(v.X); i >= 0 {
+					looked = append(looked, i)
+				}
+			case *ssa.Call:
+				sig := v.Call.Signature()
+				if sig.Results().Len() == 1 {
+					if bt, ok := sig.Results().At(0).Type().Underlying().(*types.Basic); ok && bt.Info()&types.IsBoolean != 0 {
+						if g := v.Call.StaticCallee(); g != nil && g.Signature.Recv() != nil {
+							cmp = &cmpID{g.String()}
+						} else if g == nil && !v.Call.IsInvoke() {
+							if i := paramIdx(v.Call.Value); i >= 0 {
+								cmp = &cmpID{fmt.Sprintf("param#%d", i)}
+							}
+						}
+					}
+				}
+				g := v.Call.StaticCallee()
+				if g == nil || !inSod(p, g) || g == f {
+					continue
+				}
+				sub := directionSummary(p, g, depth+1, seen)
+				for pair, c := range sub {
+					if pair[0] >= len(v.Call.Args) || pair[1] >= len(v.Call.Args) {
+						continue
+					}
+					i, j := paramIdx(v.Call.Args[pair[0]]), paramIdx(v.Call.Args[pair[1]])
+					if i < 0 || j < 0 {
+						continue
+					}
+					cc := c
+					if c != nil && strings.HasPrefix(c.s, "param#") {
+						// the helper's comparator is one of its parameters: what this call passes there
+						var k int
+						fmt.Sscanf(c.s, "param#%d", &k)
+						if k < len(v.Call.Args) {
+							arg := v.Call.Args[k]
+							if pi := paramIdx(arg); pi >= 0 {
+								cc = &cmpID{fmt.Sprintf("param#%d", pi)}
+							} else {
+								cc = &cmpID{arg.String()}
+							}
+						}
+					}
+					out[[2]int{i, j}] = cc
+				}
+			}
+		}
+	}
+	for _, i := range ranged {
+		for _, j := range looked {
+			if i != j {
+				if cmp == nil {
+					cmp = &cmpID{"none"}
+				}
+				out[[2]int{i, j}] = cmp
+			}
+		}
+	}
+	return out
+}
